@@ -1,5 +1,6 @@
 import GA.M.Pack
 import GA.Proofs.PathLemmas
+import GA.Props.C09
 /-
   C08 — include/exclude selection follows .dockerignore semantics.
   Decided here, for every pattern list (patterns are abstract predicates: the regexp compilation
@@ -194,5 +195,148 @@ theorem isAncestor_iff_comps (xs ys : List Str) (hx : ∀ c ∈ xs, NoSlash c) (
           rw [show a2 :: (as2 ++ t) = (a2 :: as2) ++ t by rfl, ih (by simp)]
           simp [joinSlash, List.append_assoc]
     exact ⟨joinSlash t, by rw [this]; simp⟩
+
+end GA.C08
+
+namespace GA.C08
+open GA
+
+/-! ### overlapping or repeated includes: each relative path is handed to `addTarFile` at most once -/
+
+theorem emit_seen (st : PackState) (path : Str) (hdr : Entry) :
+    (emitP st path hdr).All (fun st' => st'.seenNames = st.seenNames) := by
+  unfold emitP
+  split
+  · intro r; cases r <;> rfl
+  · rfl
+
+theorem overlay_seen (o : PackOpts) (st0 st : PackState) (path : Str) (s : StatInfo) (hdr : Entry)
+    (h0 : st0.seenNames = st.seenNames) :
+    (overlayP o st0 st path s hdr).All (fun st' => st'.seenNames = st.seenNames) := by
+  unfold overlayP
+  simp only
+  split
+  · exact emit_seen st path _
+  · intro oq
+    simp only
+    split
+    · split
+      · rfl
+      · exact emit_seen st path _
+    · exact emit_seen st path _
+    · exact h0
+
+theorem linkStage_seen (st : PackState) (name : Str) (s : StatInfo) (hdr : Entry) :
+    (linkStage st name s hdr).2.seenNames = st.seenNames := by
+  unfold linkStage
+  split
+  · split <;> rfl
+  · rfl
+
+theorem addTarFile_seen (o : PackOpts) (st : PackState) (path name : Str) :
+    (addTarFileP o st path name).All (fun st' => st'.seenNames = st.seenNames) := by
+  have after : ∀ (s : StatInfo) (link : Str) (capR : Res),
+      (afterStatP o st path name s link capR).All (fun st' => st'.seenNames = st.seenNames) := by
+    intro s link capR
+    unfold afterStatP
+    simp only
+    have hls := linkStage_seen st name s (buildHeader name s link capR)
+    split
+    · rfl
+    · split
+      · refine RProg.All.mono ?_ _ (overlay_seen o st _ path s _ hls.symm)
+        intro st' h; rw [h, hls]
+      · refine RProg.All.mono ?_ _ (emit_seen _ path _)
+        intro st' h; rw [h, hls]
+  unfold addTarFileP
+  intro r
+  cases r with
+  | stat s =>
+    simp only
+    split
+    · intro lr
+      cases lr <;> first | rfl | (intro capR; exact after s _ capR)
+    · intro capR; exact after s [] capR
+  | _ => rfl
+
+theorem walkFinish_add_new (o : PackOpts) (inc : Str) (depth : Nat) (isDir : Bool) (st : PackState) (relp : Str)
+    (skip : Bool) (ws1 ws' : WalkSt) (r n : Str) (h : walkFinish o inc depth isDir st relp skip ws1 = .add ws' r n) :
+    r = relp ∧ st.seenNames.contains relp = false := by
+  unfold walkFinish at h
+  by_cases hs : skip = true
+  · rw [if_pos hs] at h
+    split at h
+    · cases h
+    · split at h
+      · cases h
+      · split at h <;> cases h
+  · rw [if_neg hs] at h
+    by_cases hc : st.seenNames.contains relp = true
+    · rw [if_pos hc] at h; cases h
+    · rw [if_neg hc] at h
+      injection h with _ h2 _
+      exact ⟨h2.symm, by simpa using hc⟩
+
+/-- an item is archived only under a relative name that has not been archived before -/
+theorem walkStep_add_new (o : PackOpts) (src inc fp : Str) (kind : Kind) (depth : Nat) (ws0 : WalkSt) (st : PackState)
+    (ws' : WalkSt) (relp name : Str) (h : walkStep o src inc fp kind depth ws0 st = .add ws' relp name) :
+    st.seenNames.contains relp = false := by
+  unfold walkStep at h
+  by_cases hsk : skipping ws0.skipDepth depth = true
+  · rw [if_pos hsk] at h; cases h
+  · rw [if_neg hsk] at h
+    simp only at h
+    cases hrel : rel src fp with
+    | none => rw [hrel] at h; cases h
+    | some rel0 =>
+      rw [hrel] at h
+      simp only at h
+      by_cases hroot : (!o.includeSourceDir && decide (rel0 = dot) && (kind == Kind.dir)) = true
+      · rw [if_pos hroot] at h; cases h
+      · rw [if_neg hroot] at h
+        have := walkFinish_add_new _ _ _ _ _ _ _ _ _ _ _ h
+        rw [this.1]; exact this.2
+
+/-- the walk of one include keeps the list of names handed to `addTarFile` free of repetitions -/
+theorem walk_seen_nodup (o : PackOpts) (src inc : Str) :
+    ∀ (items : List (Str × Kind × Nat)) (ws : WalkSt) (st : PackState), st.seenNames.Nodup →
+      (walkP o src inc items ws st).All (fun st' => st'.seenNames.Nodup) := by
+  intro items
+  induction items with
+  | nil => intro ws st h; exact h
+  | cons it rest ih =>
+    intro ws st h
+    obtain ⟨filePath, kind, depth⟩ := it
+    simp only [walkP]
+    split
+    · exact ih _ _ h
+    · rename_i ws' relp name hstep
+      -- `.add` is only returned for a name that has not been seen
+      have hnew : relp ∉ st.seenNames := by
+        have hc := walkStep_add_new o src inc filePath kind depth ws st ws' relp name hstep
+        intro hm
+        have : st.seenNames.contains relp = true := by simpa using hm
+        rw [hc] at this; cases this
+      have hst1 : ({ st with seenNames := relp :: st.seenNames } : PackState).seenNames.Nodup :=
+        List.nodup_cons.mpr ⟨hnew, h⟩
+      refine C09.rbind_all _ _ (addTarFile_seen o _ filePath name) ?_
+      intro st2 h2
+      exact ih _ st2 (by rw [h2]; exact hst1)
+
+/-- **every relative path is handed to `addTarFile` at most once across all includes**, however the
+    includes overlap or repeat -/
+theorem includes_seen_nodup (o : PackOpts) (src : Str) :
+    ∀ (incs : List Str) (st : PackState), st.seenNames.Nodup →
+      (includesP o src incs st).All (fun st' => st'.seenNames.Nodup) := by
+  intro incs
+  induction incs with
+  | nil => intro st h; exact h
+  | cons inc incs ih =>
+    intro st h
+    simp only [includesP]
+    intro t
+    cases t with
+    | tree items => exact C09.rbind_all _ _ (walk_seen_nodup o src inc items {} st h) (fun st1 h1 => ih st1 h1)
+    | _ => exact ih st h
 
 end GA.C08
